@@ -54,8 +54,11 @@ def _make_objects():
 
 SUFFIX = {
     "aln": ".fasta", "arrayaln": ".fasta", "seqcoll": ".fasta", "newcoll": ".fasta", "tree": ".nwk", "table": ".tsv",
-    "dictarray": ".tsv", "treecoll": ".trees", "atomic": ".txt",
+    "dictarray": ".tsv", "treecoll": ".trees", "atomic": ".txt", "atomic_tmpdir": ".txt",
 }
+
+CALLER_TMP = "mytmp"  # a directory supplied by the caller (atomic_write(..., tmpdir=)) holding an unrelated file
+CALLER_FILES = ["mytmp", "mytmp/precious.txt"]
 
 
 def dest_name(writer, target):
@@ -78,6 +81,13 @@ ATOMIC_CHUNKS = {"old": ["old line 1\n", "old line 2\n"], "new": ["first\n", "se
 
 def run_writer(writer, target, path, tag, natural_fail=False):
     """invoke the real writer"""
+    if writer == "atomic_tmpdir":
+        from cogent3.util.io import atomic_write
+
+        with atomic_write(path, tmpdir=os.path.join(os.path.dirname(path), CALLER_TMP), mode="wt") as f:
+            for ch in ATOMIC_CHUNKS[tag]:
+                f.write(ch)
+        return
     if writer == "atomic":
         from cogent3.util.io import atomic_write
 
@@ -314,6 +324,8 @@ def instrumented(job, out_fd):
     from cogent3.util import io as cio
 
     tr = Tracer(job["workdir"], job["dest"], job["mode"], job.get("k"), None)
+    if job["writer"] == "atomic_tmpdir":
+        tr.tmpdirs.append(os.path.join(tr.workdir, CALLER_TMP))
     sys.addaudithook(tr.hook)
     orig_open_ = cio.open_
 
@@ -329,7 +341,17 @@ def instrumented(job, out_fd):
 
     def zclose(self):
         if self.fp is not None and self.mode in ("w", "a", "x") and tr.in_zip:
-            tr.pseudo(["zip_dir", tr.role(self.filename) if self.filename else None])
+            try:
+                tr.pseudo(["zip_dir", tr.role(self.filename) if self.filename else None])
+            except OSError:
+                # the injected failure of close(): the central directory is NOT written (also not later by __del__)
+                fp, self.fp = self.fp, None
+                tr.in_zip = False
+                try:
+                    fp.close()
+                except Exception:
+                    pass
+                raise
             tr.in_zip = False
         return orig_zclose(self)
 
@@ -417,11 +439,14 @@ def resume_run(job, out_fd):
 
 
 def observe_store(path):
-    st = {"completed": {}, "not_completed": {}, "md5": {}, "other": [], "logs": []}
+    st = {"completed": {}, "not_completed": {}, "md5": {}, "other": [], "logs": [], "tmp_left": []}
     for root, dirs, files in os.walk(path):
         for n in files:
             p = os.path.join(root, n)
             rel = os.path.relpath(p, path)
+            if any(part.startswith("tmp") for part in rel.split(os.sep)[:-1]):
+                st["tmp_left"].append(rel)  # temp dir of an atomic_write that was killed: allowed after a kill
+                continue
             txt = open(p, "rb").read().decode("latin-1")
             if root == path:
                 st["completed"][n] = txt
@@ -471,6 +496,10 @@ def serve():
             shutil.rmtree(wd, ignore_errors=True)
             os.makedirs(wd)
             job["dest"] = dest_name(job["writer"], job["target"])
+            if job["writer"] == "atomic_tmpdir":
+                os.makedirs(os.path.join(wd, CALLER_TMP))
+                with open(os.path.join(wd, CALLER_TMP, "precious.txt"), "w") as fh:
+                    fh.write("the caller's own file\n")
             if job.get("present"):
                 dp = os.path.join(wd, job["dest"])
                 if job["target"] == "zip":
@@ -479,6 +508,11 @@ def serve():
                         z.writestr("old_member.txt", "previous content\n")
                 else:
                     run_writer(job["writer"], job["target"], dp, "old")
+                if job["writer"] == "atomic_tmpdir" and not os.path.exists(os.path.join(wd, CALLER_TMP, "precious.txt")):
+                    # writing the old content already destroyed the caller's directory: put it back for the observed run
+                    os.makedirs(os.path.join(wd, CALLER_TMP), exist_ok=True)
+                    with open(os.path.join(wd, CALLER_TMP, "precious.txt"), "w") as fh:
+                        fh.write("the caller's own file\n")
             before = observe(wd, job["dest"])
         r, w = os.pipe()
         pid = os.fork()
